@@ -303,6 +303,7 @@ def s6(ctx, R):
         if base not in extra_types:
             extra_types.append(base)
     QUOTED, BLOCK, NUMBER, LIST = '"v"', "text:\nline\n.", "10", ['"a"', '"b"']
+    BLOCK_CRLF = "text:\r\nline\r\n.\r"  # the token as the lexer delivers it for a script with CRLF line endings
     # further list values: an item occurring twice (separators must not depend on where an EQUAL item stands), and the item shapes the
     # recorder can store (escaped quotes, a trailing backslash, blanks, brackets)
     LIST_DUP = ['"a"', '"b"', '"a"']
@@ -315,7 +316,7 @@ def s6(ctx, R):
         ns = names(t)
         out = []
         if "string" in ns or "stringlist" in ns:
-            out += [("quoted string", QUOTED), ("text: block", BLOCK)]
+            out += [("quoted string", QUOTED), ("text: block", BLOCK), ("text: block with CRLF lines", BLOCK_CRLF)]
         if "stringlist" in ns:
             out.append(("string list", LIST))
             out.append(("string list with a repeated item", LIST_DUP))
@@ -427,7 +428,7 @@ def s6(ctx, R):
                 continue
             i = text.index(expect)
             nxt = text[i + len(expect):i + len(expect) + 1]
-            if label == "text: block" and nxt != "\n":
+            if label.startswith("text: block") and nxt != "\n":
                 problems.append("writes %r after the text: block instead of a newline" % (nxt,))
             if extra is not None and not text[:i].endswith(":tag "):
                 problems.append("the tag and a space do not precede its parameter (%r)" % (text[:i],))
